@@ -28,6 +28,20 @@ _PROXY_NAME = _re.compile(r"\b(SymBool|SymInt|SymFloat|SymBytes|SymStr|SymMem|Me
 
 REGISTRY = {}  # property -> list of Unit
 
+# instances of repository classes made by a contract without running their constructor (object.__new__): an attribute the
+# constructor would have set (a cache a refactoring introduces, say) is missing on them -- a limit of the harness, not a
+# behaviour of the code.  `bare` remembers the most recent ones; U.call turns an AttributeError on one of them into Unsupported.
+import collections as _collections
+_BARE = _collections.OrderedDict()
+
+
+def bare(cls):
+    obj = object.__new__(cls)
+    _BARE[id(obj)] = obj
+    while len(_BARE) > 20000:
+        _BARE.popitem(last=False)
+    return obj
+
 
 class Unit:
     def __init__(self, prop, name, fn, covers, params, loops, level, note, bounded_samples, timeout_ms, max_paths):
@@ -97,6 +111,8 @@ class UBase:
             # the code under contract asked a stand-in of /verif (stub world, ghost object, proxy) for something it does not
             # model: a limit of the harness (undecided), not a behaviour of androguard
             obj = getattr(e, "obj", None)
+            if obj is not None and _BARE.get(id(obj)) is obj:
+                raise Unsupported("instance of %s made without its constructor has no attribute %r" % (type(obj).__name__, getattr(e, "name", "?")))
             if obj is not None and (type(obj).__module__ or "").split(".")[0] in ("contracts", "specs", "pyvc"):
                 raise Unsupported("stand-in %s.%s has no attribute %r" % (type(obj).__module__, type(obj).__name__, getattr(e, "name", "?")))
             return Outcome(exc=e)
